@@ -36,6 +36,28 @@ THEOREMS = [
          "[0,1); ice => on the curve and T < T_eq_l; T <= hi >= max(T_k_0, T_sh(0), T_eq_l); T >= the COLDEST shelf "
          "temperature applied so far (= T_shelf[j-1], the program never rises, C05) — same side condition",
          strength="partial"),
+    dict(name="Snow.C06.run_bounds_gen", clause="general form: the C06 clauses for the columns j <= J when the side "
+         "condition holds for the source states of the steps before column J, where it may be DERIVED from that state's "
+         "invariant; every run theorem below is an instance", strength="conditional-on-monitored-side-condition"),
+    dict(name="Snow.C06.run_admissible_until_first_nucleation", clause="UNCONDITIONAL (no side condition) up to and "
+         "including the first column that contains ice: all C06 clauses for the columns j <= J when the columns before "
+         "J are ice-free", strength="full"),
+    dict(name="Snow.C06.run_bounds_uncoupled", clause="UNCONDITIONAL for the whole run when the vials are thermally "
+         "uncoupled (k_int·A = 0): no vial is ever warmed", strength="full"),
+    dict(name="Snow.C06.run_bounds_below_liquidus", clause="UNCONDITIONAL for the whole run of a process that starts at "
+         "or below the liquidus (T_k_0 <= T_eq_l, shelf start <= T_eq_l) under the static inequality "
+         "dt·Hsum_i·(T_m − T_end) <= m·lambda(1−w_s)", strength="full"),
+    dict(name="Snow.C06.run_bounds_contacts_partial", clause="whole run, any start temperature, under the static "
+         "inequality StaticSide: it suffices that no WARMED ice-containing vial has a contact (neighbour, shelf) above "
+         "T_eq_l (ContactsBelow) — the only way the side condition can fail; this is what remains monitored",
+         strength="partial"),
+    dict(name="Snow.C06.side_of_contacts_below_liquidus", clause="an ice-containing vial whose contacts are all <= T_eq_l "
+         "satisfies the side condition under dt·Hsum·(T_m − lo) <= m·lambda(1−w_s)", strength="full"),
+    dict(name="Snow.C06.allLiquid_monotone", clause="all-liquid phase: with uniform T_k_0 >= shelf start, non-rising shelf "
+         "and Stable, in every step whose source column and all earlier columns are ice-free the net heat flow of EVERY "
+         "vial is <= 0 and no liquid vial warms (monotone linear step, induction)", strength="full"),
+    dict(name="Snow.C06.liqUpd_mono", clause="the liquid update is monotone in the temperature vector and the shelf "
+         "temperature inside the stable range (entrywise non-negative update matrix)", strength="full"),
     dict(name="Snow.C06.ice_iff_after_nucleation", clause="per step: recorded statistics kept by ice-containing vials, "
          "set exactly when a liquid vial nucleates", strength="full"),
     dict(name="Snow.C06.ice_iff_recorded", clause="run level: in column j a vial contains ice iff the nucleation time in "
@@ -63,8 +85,10 @@ THEOREMS = [
          "containing ice", strength="nonvacuity"),
     dict(name="monitored:finite", clause="all reported values are finite (vacuous over the reals; checked on the floats "
          "of every real run)", strength="monitored"),
-    dict(name="monitored:side_condition", clause="the side condition of the partial theorems holds on every real "
-         "(vial, step) (counted in the evidence)", strength="monitored"),
+    dict(name="monitored:side_condition", clause="AFTER the first column with ice, for thermally coupled vials of a process "
+         "starting above the liquidus: the side condition q·dt <= sigma·m·lambda(1−w_s) for warmed ice-containing vials "
+         "(counted on every real (vial, step)); under StaticSide it can only fail at a warmed ice vial with a contact "
+         "above T_eq_l (ContactsBelow, also counted)", strength="monitored"),
 ]
 TRUSTED = [
     "Lean 4.33 kernel; axioms per theorem listed under coverage.axioms",
@@ -76,21 +100,28 @@ ASSUMPTIONS = [
     "stable range = Snow.C06.Stable: conductances >= 0; 2·dt·Hsum_i <= m·cp_min; (dt·Hsum_i·(hi-lo))^2 <= "
     "m^2·cp_min·D·lambda(1-w_s); T_eq_l - lo <= gamma; T_k_0 >= shelf start; lo = end temperature of the program, "
     "hi = max(T_k_0, start, T_eq_l); well-formed non-increasing program",
-    "run_admissible_partial additionally assumes the per-step side condition; the monitor counts how often it fails "
-    "on real runs (expected: never) and every bound is checked independently of it",
+    "what is still MONITORED (not proved): only the side condition for steps AFTER the first column with ice, for "
+    "thermally coupled vials, in processes that start above the liquidus; proved unconditional: everything up to and "
+    "including the first column with ice, uncoupled vials, processes starting at or below the liquidus (StaticSide); "
+    "under StaticSide the side condition is implied by 'no warmed ice vial has a contact above T_eq_l'. The monitor "
+    "counts side-condition failures, warmed ice vials with a contact above T_eq_l and StaticSide on every real run; "
+    "every bound is checked independently of them",
     "bounds are evaluated with an absolute slack of 1e-9 K / 1e-12 in sigma for rounding",
 ]
 RULE = ("C01's real runs, re-drawn so that most lie inside the stable range (some just outside, reported separately); "
         "on every recorded (vial, step): 0 <= sigma < 1, ice iff at/after the recorded nucleation, on the curve and "
         "<= T_eq_l when ice is present, T <= max(T0, T_sh(0), T_eq_l), T >= coldest shelf temperature so far, "
         "finiteness, and the side condition; plus full model/implementation comparison")
-EXPLANATION = ("Lean theorems over the reals (step invariants full, run invariant conditional) + monitors of every bound "
-               "and of the side condition on real trajectories")
+EXPLANATION = ("Lean theorems over the reals: run invariant unconditional up to and including the first column with ice, for "
+               "uncoupled vials and for processes starting at or below the liquidus; afterwards conditional on the monitored "
+               "side condition (under StaticSide: on 'no warmed ice vial has a contact above T_eq_l') + monitors of every "
+               "bound, of the side condition and of its sufficient condition on real trajectories")
 PARALLEL = True
 
 _STASH = {}
 _TOTALS = {"runs_inside": 0, "runs_outside": 0, "vial_steps_checked": 0, "ice_vial_steps": 0,
-           "warmed_ice_vial_steps": 0, "side_condition_violations": 0, "bound_violations_outside_stable": 0}
+           "warmed_ice_vial_steps": 0, "side_condition_violations": 0, "bound_violations_outside_stable": 0,
+           "warmed_ice_with_contact_above_T_eq_l": 0, "runs_with_StaticSide": 0}
 
 
 def _key(case):
@@ -240,7 +271,8 @@ def monitor(case, impl):
         v("lower_bound", k, i, f"T={XT[k, i]!r} < coldest shelf temperature so far {lowb[k]!r}")
     if sub is not None:
         return {"stable": ok, "margins": marg, "violations": viol, "vial_steps": int(N * len(sub)),
-                "ice": int(ice.sum()), "warmed_ice": 0, "side_bad": 0, "side_first": None}
+                "ice": int(ice.sum()), "warmed_ice": 0, "side_bad": 0, "side_first": None,
+                "contacts_above": 0, "static_side": True}
     # side condition of run_admissible_partial
     W = np.zeros((n, n))
     for i, r in enumerate(impl["nbrs"]):
@@ -253,9 +285,18 @@ def monitor(case, impl):
          + fu.spec_kshelf(case, impl) * A * (Tsh[:, None] - XT))
     warmed = ice & (q > 0)
     side_bad = warmed & ~(q * dt <= Xs * ph["m"] * ph["lam"] * (1 - ph["w_s"]))
+    # ContactsBelow: a warmed ice vial with a contact (neighbour / shelf) above T_eq_l
+    contacts_above = 0
+    for k, i in np.argwhere(warmed)[:5000]:
+        nb = impl["nbrs"][i]
+        if Tsh[k] > ph["T_eq_l"] or (nb and max(XT[k, j] for j in nb) > ph["T_eq_l"]):
+            contacts_above += 1
+    Hs_geo = deg * impl["kInt"] * A + np.asarray(impl["ext"]) * impl["kExt"] * A + fu.spec_kshelf(case, impl) * A
+    static_side = bool(np.all(dt * Hs_geo * (ph["T_m"] - case["opcond"]["stop"])
+                              <= ph["m"] * ph["lam"] * (1 - ph["w_s"])))
     return {"stable": ok, "margins": marg, "violations": viol,
             "vial_steps": int(N * n), "ice": int(ice.sum()), "warmed_ice": int(warmed.sum()),
-            "side_bad": int(side_bad.sum()),
+            "side_bad": int(side_bad.sum()), "contacts_above": int(contacts_above), "static_side": static_side,
             "side_first": ([int(x) for x in np.argwhere(side_bad)[0]] if side_bad.any() else None)}
 
 
@@ -303,6 +344,8 @@ def classify(case, impl):
         _TOTALS["ice_vial_steps"] += mon["ice"]
         _TOTALS["warmed_ice_vial_steps"] += mon["warmed_ice"]
         _TOTALS["side_condition_violations"] += mon["side_bad"]
+        _TOTALS["warmed_ice_with_contact_above_T_eq_l"] += mon.get("contacts_above", 0)
+        _TOTALS["runs_with_StaticSide"] += int(bool(mon.get("static_side")))
         if mon["side_bad"]:
             tags.append("side condition violated somewhere")
     tags.append("some ice" if mon["ice"] else "no ice")
